@@ -178,3 +178,88 @@ def case_of(draw, spec_strategy, max_extent=6):
     case = {"spec": spec}
     case.update(rt)
     return case
+
+
+# --------------------------------------------------------------------------
+# D_shape: shape-based partitioning (C02)
+
+
+def input_carried_vars(expr):
+    out = []
+    for t in expr["terms"]:
+        for f in t["factors"]:
+            if "t" in f:
+                for ie in f["idx"]:
+                    for v in S.iexpr_vars(ie):
+                        if v not in out:
+                            out.append(v)
+    return out
+
+
+def levels_of(rank, n):
+    """level names of a rank split by n directives, outermost first"""
+    return [rank + str(i) for i in range(n, -1, -1)]
+
+
+@st.composite
+def interleave(draw, groups):
+    """random interleaving of several sequences that keeps each sequence's order"""
+    groups = [list(g) for g in groups if g]
+    out = []
+    while groups:
+        k = draw(st.integers(0, len(groups) - 1))
+        out.append(groups[k].pop(0))
+        if not groups[k]:
+            groups.pop(k)
+    return out
+
+
+@st.composite
+def shape_stack(draw, rank, extent, max_levels=3, conventional_names=False):
+    n = draw(st.sampled_from([1, 1, 2, 2, 3][:2 * max_levels - 1]))
+    dirs = []
+    sizes = {}
+    for i in range(n):
+        kind = draw(st.sampled_from(["uniform_shape", "uniform_shape", "nway_shape"]))
+        val = draw(st.integers(1, extent + 2))
+        if draw(st.integers(0, 3)) == 0:
+            name = (rank + str(n - 1 - i)) if draw(st.booleans()) else ("sz_" + rank.lower() + str(i))
+            sizes[name] = val
+            dirs.append("%s(%s)" % (kind, name))
+        else:
+            dirs.append("%s(%d)" % (kind, val))
+    return dirs, sizes
+
+
+@st.composite
+def case_shape(draw, max_extent=6, max_levels=3, **kw):
+    kw.setdefault("allow_take", False)
+    kw.setdefault("allow_output_only", False)
+    spec = draw(spec_plain(**kw))
+    expr = spec["exprs"][0]
+    rt = draw(runtime(spec, max_extent=max_extent))
+    vs = [v.upper() for v in S.expr_vars(expr)]
+    cand = [v.upper() for v in input_carried_vars(expr)]
+    chosen = draw(subset(cand, min_size=1 if cand else 0))
+    parts = []
+    groups = []
+    for r in vs:
+        if r in chosen:
+            dirs, sizes = draw(shape_stack(r, rt["extents"][r], max_levels))
+            parts.append([r, dirs])
+            rt["sizes"].update(sizes)
+            groups.append(levels_of(r, len(dirs)))
+        else:
+            groups.append([r])
+    spec["partitioning"] = {"Z": parts} if parts else {}
+    mode = draw(st.sampled_from(["omitted", "ordered", "ordered", "scrambled", "scrambled"]))
+    flat = [x for g in groups for x in g]
+    if mode == "omitted" or not flat:
+        spec["loop_order"] = {}
+    elif mode == "ordered":
+        spec["loop_order"] = {"Z": draw(interleave(groups))}
+    else:
+        spec["loop_order"] = {"Z": list(draw(st.permutations(flat)))}
+    case = {"spec": spec, "lo_mode": mode}
+    case.update(rt)
+    return case
